@@ -539,6 +539,9 @@ def rule_show(ctx, R, fn=None):
         start = nonempty or [0]
         ok = bool(show_writes) and not reaches_without(cfg, start, ok_returns, cut_blocks=show_writes, cut_edges=list(qerr))
         R.check(ok, "show:%s:shows_text" % tag, "every non-empty captured text is written to the terminal (no path to a normal return skips the write of the text)", c.span)
+        # ... on the terminal's standard output (both captured streams are shown there, told apart by their label)
+        dests = sorted({roles.of_operand(t["args"][0], bi)[:23] for bi, t in c.calls() if callee_name(t["f"], fb).endswith("write_fmt")})
+        R.check(dests == ["StandardStream::stdout("], "show:%s:on_stdout" % tag, "the display closure writes to the process's standard output: %s" % dests, c.span)
     R.floor("display_closures:" + fn.rsplit("::", 2)[-2], n, 2, "display closures handed to the capturing writers")
     # which callback labels which stream: the writer handed to the interpreter step as `out` announces "stdout", the
     # one handed over as `err` announces "stderr"
